@@ -56,7 +56,15 @@ Proof.
   { destruct l as [|x l']; [reflexivity|]. simpl.
     assert (Hx : is_vell x = false) by (apply plain_not_ell; eapply plain_list_In; [exact Hpl | left; reflexivity]).
     rewrite Hx. reflexivity. }
-  rewrite Hne. unfold subst_list_elements. rewrite (plain_list_no_ell _ Hpl).
+  rewrite Hne.
+  assert (Hmid : existsb is_vell (removelast (tl l)) = false).
+  { apply not_true_iff_false. intros E. apply existsb_exists in E as (x & Hin & Hx).
+    assert (Hinl : In x l).
+    { destruct l as [|a l0]; [contradiction|]. right. simpl in Hin.
+      clear - Hin. induction l0 as [|b r IH]; [contradiction|]. destruct r; [contradiction|].
+      simpl in Hin. destruct Hin as [->|Hin]; [left; reflexivity | right; apply IH; exact Hin]. }
+    rewrite (plain_not_ell x (plain_list_In _ _ Hpl Hinl)) in Hx. discriminate. }
+  rewrite Hmid. unfold subst_list_elements. rewrite (plain_list_no_ell _ Hpl).
   rewrite map_cfo_like, classify_map_Some, middle_map_Some.
   unfold subst_elements.
   assert (Hr : Forall2 (fun e x => substitute e x = Ok e) es l)
@@ -415,6 +423,7 @@ Proof.
     destruct (validate Subst (SList es ty len mnl mxl) [] v) eqn:EV; [|discriminate].
     destruct v as [| | | | | | | | |l| | | |]; try discriminate.
     destruct (negb (length l =? 0) && forallb is_vell l); [discriminate|].
+    destruct (existsb is_vell (removelast (tl l))); [discriminate|].
     cbn [validate] in EV.
     destruct (check_len_first [] (VList l) (zlen l) len mnl mxl) eqn:EL; [|discriminate].
     apply check_len_first_nil in EL.
